@@ -143,3 +143,63 @@ fn check(acc: Option<f64>) {
 fn u7_catch_genstate_noacc() {
     check(None);
 }
+
+// ---- accuracy search (tiny droplets): C12 clauses + C13 optimality against a symbolic competitor --------------------
+
+fn acc_search(cap: u32) {
+    let mut a = CatchDifficultyAttributes::default();
+    a.n_fruits = kani::any();
+    a.n_droplets = kani::any();
+    a.n_tiny_droplets = kani::any();
+    kani::assume(a.n_fruits <= cap && a.n_droplets <= cap && a.n_tiny_droplets <= cap);
+    // an empty map has no accuracy to approximate (0/0)
+    kani::assume(a.n_fruits + a.n_droplets + a.n_tiny_droplets > 0);
+    let acc: f64 = kani::any();
+    kani::assume(acc >= 0.0 && acc <= 1.0);
+    let mut b = CatchPerformance {
+        map_or_attrs: MapOrAttrs::Attrs(a.clone()),
+        difficulty: any_difficulty(),
+        acc: Some(acc),
+        combo: any_opt(u32::MAX),
+        fruits: any_opt(PCAP),
+        droplets: any_opt(PCAP),
+        tiny_droplets: None,
+        tiny_droplet_misses: None,
+        misses: any_opt(u32::MAX),
+    };
+    let pre = b.clone();
+    let s = match b.generate_state() {
+        Ok(s) => s,
+        Err(_) => {
+            assert!(false, "C12 generate_state on attributes cannot fail");
+            return;
+        }
+    };
+    post(&pre, &a, &s, &b);
+    assert!(s.tiny_droplets + s.tiny_droplet_misses == a.n_tiny_droplets, "C12.3 tiny droplets add up");
+    let x: u32 = kani::any();
+    kani::assume(x <= a.n_tiny_droplets);
+    let chosen = (acc - accuracy(s.fruits, s.droplets, s.tiny_droplets, s.tiny_droplet_misses, s.misses)).abs();
+    let other = (acc - accuracy(s.fruits, s.droplets, x, a.n_tiny_droplets - x, s.misses)).abs();
+    assert!(chosen <= other, "C13 generated tiny droplet count is at least as close to the requested accuracy as any other");
+}
+
+//@ obl: id=U7.catch.genstate.acc_search.n4 harness=u7_catch_genstate_acc_search_n4 props=C12,C13 tier=quick kind=bounded budget=900
+//@ fns: CatchPerformance::generate_state (find_best_tiny_droplets), accuracy (catch::performance)
+//@ bound: bounded: fruits, droplets, tiny droplets <= 4 each (not all zero); accuracy any value in [0,1]; fruits/droplets/misses/combo optional and symbolic; tiny droplet results not given; search loop closed by unwind 5 (certified); competitor symbolic
+//@ clause: catch generate_state with accuracy: C12 clauses; tiny'+tiny_misses' == n_tiny_droplets; C13: no other tiny droplet count gives an accuracy closer to the requested one
+#[kani::proof]
+#[kani::unwind(5)]
+fn u7_catch_genstate_acc_search_n4() {
+    acc_search(4);
+}
+
+//@ obl: id=U7.catch.genstate.acc_search.n10 harness=u7_catch_genstate_acc_search_n10 props=C12,C13 tier=thorough kind=bounded budget=3000
+//@ fns: CatchPerformance::generate_state (find_best_tiny_droplets)
+//@ bound: bounded: fruits, droplets, tiny droplets <= 10 each; otherwise as U7.catch.genstate.acc_search.n4
+//@ clause: as U7.catch.genstate.acc_search.n4
+#[kani::proof]
+#[kani::unwind(5)]
+fn u7_catch_genstate_acc_search_n10() {
+    acc_search(10);
+}
